@@ -159,3 +159,18 @@ def adc_image(detector, slot: int = 0, value: int = 0) -> None:
     dtype = get_dtype(detector.characteristics.adc_bit_resolution)
     LOG.append(("adc_image", int(slot), str(np.dtype(dtype)), float(value), threading.get_ident()))
     detector.image.array = np.full(detector.geometry.shape, min(int(value), int(np.iinfo(dtype).max)), dtype=dtype)
+
+
+def photon_to_pixel(detector) -> None:
+    """pixel = the photon bucket as it is (makes what an upstream built-in photon model produced visible in `pixel`)"""
+    detector.pixel.array = np.array(detector.photon.array, dtype=float)
+
+
+def clock(detector, slot: int = 0, delay_ms: float = 0.0) -> None:
+    """pixel[slot] = a number made of the readout cursor the model sees: pipeline_count·10⁶ + time_step·10³ + time
+    (dyadic times: exact); sleeps (data-dependent) between the scheduler setting the cursor and the model reading it"""
+    if delay_ms:
+        time.sleep(((int(detector.geometry.row) + int(slot) + len(LOG)) % 4) * float(delay_ms) / 1000.0)
+    v = float(detector.pipeline_count) * 1e6 + float(detector.time_step) * 1e3 + float(detector.time)
+    LOG.append(("clock", int(slot), "", v, threading.get_ident()))
+    _put(detector, slot, v)
